@@ -196,7 +196,16 @@ func reader(t []xml.Token) xml.TokenReader {
 }
 
 func genPayload(r *common.Rand) []xml.Token {
-	switch r.Intn(4) {
+	switch r.Intn(6) {
+	case 4:
+		// an application element that (wrongly but legally) lives in the stanza-errors namespace,
+		// after the condition: the condition is still the FIRST element of that namespace
+		g := xml.StartElement{Name: xml.Name{Space: "urn:ietf:params:xml:ns:xmpp-stanzas", Local: pick(r, []string{"gone", "redirect", "app-specific"})}}
+		return []xml.Token{g, xml.CharData("xmpp:other@example.net"), g.End()}
+	case 5:
+		a := xml.StartElement{Name: xml.Name{Space: "urn:app", Local: "a"}}
+		g := xml.StartElement{Name: xml.Name{Space: "urn:ietf:params:xml:ns:xmpp-stanzas", Local: "conflict"}}
+		return []xml.Token{a, a.End(), g, g.End()}
 	case 0:
 		return nil
 	case 1:
@@ -338,13 +347,31 @@ func (c *ctxT) stanzaCase(x stz, payload []xml.Token, rnd *common.Rand) {
 	}
 	u1, e1 := unmarshalStz(kind, b1)
 	u2, e2 := unmarshalStz(kind, b2)
-	switch {
-	case e1 != nil || e2 != nil:
-		c.fail("roundtrip", "stanza/"+kind, lines, fmt.Sprintf("unmarshal: %v / %v (%q, %q)", e1, e2, b1, b2))
-	case !eqStz(u1, u2, true):
-		c.fail("paths-agree", "stanza/"+kind, lines, fmt.Sprintf("marshaller %q decodes to %+v, token path %q decodes to %+v", b1, u1, b2, u2))
-	case !eqStz(u1, x, true):
-		c.fail("roundtrip", "stanza/"+kind, lines, fmt.Sprintf("decoded %+v, original %+v (%q)", u1, x, b1))
+	if e1 != nil || e2 != nil {
+		c.fail("roundtrip", "stanza/"+kind+"/unmarshal", lines, fmt.Sprintf("unmarshal: %v / %v (%q, %q)", e1, e2, b1, b2))
+		return
+	}
+	// field by field, so that the one known divergence (the marshaller drops XMLName.Space) has a
+	// key of its own and cannot hide any other
+	diff := func(a, b stz) []string {
+		var d []string
+		for _, f := range [][3]string{{"id", a.id, b.id}, {"to", a.to, b.to}, {"from", a.from, b.from}, {"lang", a.lang, b.lang}, {"type", a.typ, b.typ}, {"xmlname-space", a.space, b.space}} {
+			if f[1] != f[2] {
+				d = append(d, f[0])
+			}
+		}
+		return d
+	}
+	for _, f := range diff(u1, u2) {
+		c.fail("paths-agree", "stanza/"+kind+"/"+f, lines, fmt.Sprintf("field %s: marshaller %q decodes to %+v, token path %q decodes to %+v", f, b1, u1, b2, u2))
+	}
+	for i, u := range []stz{u1, u2} {
+		for _, f := range diff(u, x) {
+			if f == "xmlname-space" && i == 0 {
+				continue // reported once, under paths-agree
+			}
+			c.fail("roundtrip", fmt.Sprintf("stanza/%s/%s/path%d", kind, f, i+1), lines, fmt.Sprintf("field %s: decoded %+v, original %+v (%q)", f, u, x, [][]byte{b1, b2}[i]))
+		}
 	}
 }
 
@@ -518,6 +545,33 @@ func (c *ctxT) errCase(e serr, payload []xml.Token, rnd *common.Rand) {
 		c.sdecLine(mut2)
 	}
 	if payload != nil {
+		// with an application payload only the token path exists (Wrap): print it, decode it, and
+		// the error must still be the original one
+		want := canonErr(e)
+		if b, err := encodeTokens(v.Wrap(reader(payload))); err != nil {
+			c.fail("wellformed", "serr/payload", lines, err.Error())
+		} else if werr := wellFormed(b); werr != nil {
+			c.fail("wellformed", "serr/payload", lines, fmt.Sprintf("%q: %v", b, werr))
+		} else {
+			var out stanza.Error
+			if err := xml.Unmarshal(b, &out); err != nil {
+				c.fail("roundtrip", "serr/payload", lines, fmt.Sprintf("%q: %v", b, err))
+			} else if got := fromErr(out); !reflect.DeepEqual(got, want) {
+				c.fail("roundtrip", "serr/payload", lines, fmt.Sprintf("decoded %+v want %+v (%q)", got, want, b))
+			}
+			// and through UnmarshalError inside an error stanza
+			toksP, _ := common.ReadAllTokens(v.Wrap(reader(payload)))
+			st := stanza.IQ{ID: "e", Type: stanza.ErrorIQ}.StartElement()
+			ue, uerr, upan := unmarshalError(append(append([]xml.Token(nil), toksP...), st.End()))
+			switch {
+			case upan != "":
+				c.fail("total", "UnmarshalError/payload", lines, upan)
+			case uerr != nil:
+				c.fail("error-roundtrip", "UnmarshalError/payload", lines, uerr.Error())
+			case !reflect.DeepEqual(canonErr(fromErr(ue)), want):
+				c.fail("error-roundtrip", "UnmarshalError/payload", lines, fmt.Sprintf("got %+v want %+v", fromErr(ue), want))
+			}
+		}
 		return
 	}
 	b1, err1 := xml.Marshal(v)
